@@ -4,8 +4,9 @@ import Netpoll.FdGlobal
 
 Model: `Netpoll.Fd` (lifecycle programs after the Go code, composed in any interleaving with an adversary that
 reuses freed numbers).  Helper lemmas: `Netpoll.FdLemmas`, `Netpoll.FdGlobal`.  The statements are about the
-code AFTER the fix of D15 (`listener.Close` closes through the owning `os.File` only); the old behaviour is kept
-as a witness (`D15_*`).
+code AFTER the fixes of D15 (`listener.Close` closes through the owning `os.File` only) and F1 (`CreateListener`
+closes what `net.Listen` opened when `ConvertListener` fails); the old behaviour is kept as witnesses (`D15_*`,
+`F1_*`) over explicit pre-fix variants of the lifecycle programs.
 -/
 namespace Netpoll.Props.C15
 open Netpoll.Fd
@@ -40,9 +41,10 @@ theorem C15_once (envOpen : Fd → Bool) (ms : List Move) (g : G) (hk : FromKind
 
 /-- **Nothing is left.**  When every lifecycle that was started has completed (connections: close callbacks have
 run; listeners: `Close` was called; pollers: the loop has seen the close request), no number in the ledger
-belongs to netpoll – under `noLeakAssumptions` (`File()`/`SetNonblock` do not fail inside `ConvertListener`,
+belongs to netpoll – under `noLeakAssumptions` (`SetNonblock` does not fail inside `ConvertListener`,
 `epoll_wait` fails only with EINTR; the witnesses below show each is needed) and with numbers 0–2 never handed to
-netpoll (built into `gstep`). -/
+netpoll (built into `gstep`).  `File()` failing inside `ConvertListener` (descriptor limit) is covered: no
+assumption about it since the fix of F1. -/
 theorem C15_none_left (envOpen : Fd → Bool) (ms : List Move) (g : G) (hk : FromKinds ms)
     (hr : run noLeakAssumptions (G.init envOpen) ms = some g) (hd : g.allDone = true) :
     (∀ fd i t, g.led fd ≠ some (.np i t)) ∧ noneLeftOK envOpen g.obs = true := by
@@ -100,13 +102,32 @@ theorem D15_witness_ebadf :
     (run noAssumptions (G.init fun _ => false) (d15Moves.filter fun m => match m with | .envOpen _ => false | _ => true)).map
       (fun g => g.trace.head?) = some (some (Ev.npClose 6 0 1 .listener_Close_file none)) := by decide +kernel
 
+/-! ### F1 (fixed in /repo): `CreateListener` when `File()` fails (descriptor limit) -/
+
+/-- before the fix (`return ConvertListener(ln)`): the lifecycle is over and what `net.Listen` opened (5) is still
+netpoll's – nobody will ever close it -/
+theorem F1_witness_prefix_leaks_listener :
+    (run noAssumptions (G.init fun _ => false)
+      [.spawn (lifeCreateListenerPreF1 1), .step 0 0 false, .step 0 0 true, .step 0 5 true, .step 0 0 false]).map
+      (fun g => (g.allDone, g.led 5)) = some (true, some (.np 0 0)) := by decide +kernel
+
+/-- the fixed code on the same outcomes: one more step, `ln.Close()` at the new call site, and nothing is left -/
+theorem F1_fixed_closes_listener :
+    (run noAssumptions (G.init fun _ => false)
+      [.spawn (Kind.createListener 1).prog, .step 0 0 false, .step 0 0 true, .step 0 5 true, .step 0 0 false,
+       .step 0 0 true]).map
+      (fun g => (g.allDone, g.led 5, g.trace.head?)) =
+      some (true, none, some (Ev.npClose 5 0 0 .createListener_ln (some (.np 0 0)))) := by decide +kernel
+
 /-! ### the assumptions of `C15_none_left` are needed (what the code does on those branches) -/
 
-/-- `CreateListener` when `File()` fails: what `net.Listen` opened (5) is never closed by netpoll. -/
-theorem leak_createListener_File_fails :
+/-- `SetNonblock` failing inside `ConvertListener` (after `File()` made the duplicate 6): `CreateListener` closes
+what `net.Listen` opened (5) and drops the listener object; the duplicate is left to the finalizer. -/
+theorem leak_createListener_setNonblock_fails :
     (run noAssumptions (G.init fun _ => false)
-      [.spawn (Kind.createListener 1).prog, .step 0 0 false, .step 0 0 true, .step 0 5 true, .step 0 0 false]).map
-      (fun g => (g.allDone, g.led 5)) = some (true, some (.np 0 0)) := by decide +kernel
+      [.spawn (Kind.createListener 1).prog, .step 0 0 false, .step 0 0 true, .step 0 5 true, .step 0 0 true,
+       .step 0 6 true, .step 0 0 false, .step 0 0 true]).map
+      (fun g => (g.allDone, g.led 5, g.led 6)) = some (true, none, some (.np 0 1)) := by decide +kernel
 
 /-- a poller whose `EpollWait` fails leaves `Wait` with both descriptors open -/
 theorem leak_poller_wait_error :
